@@ -63,7 +63,7 @@ func c19DevNode(n int) *specs.DeviceNode {
 }
 
 func c19Hook(tag string) *specs.Hook {
-	return &specs.Hook{HookName: "createContainer", Path: "/usr/bin/c19-hook", Args: []string{"c19-hook", tag}}
+	return &specs.Hook{HookName: "createContainer", Path: "/usr/bin/c19-hook", Args: []string{"c19-hook", tag, "--format=%s:%d"}}
 }
 
 // c19Spec builds a valid Spec. variety selects which kinds of edits the devices carry.
@@ -74,7 +74,7 @@ func c19Spec(vendor, class string, devs []string, tag string, variety int, globa
 		switch (variety + i) % 4 {
 		case 0:
 			// strings whose YAML rendering needs block scalars with empty lines / trailing line breaks / leading blanks
-			e.Env = append(e.Env, "MOTD=first paragraph\n\nsecond paragraph", "TAIL=x\n\n", "LEAD=  two leading blanks", "HASH=a # b", "COLON=a: b")
+			e.Env = append(e.Env, "MOTD=first paragraph\n\nsecond paragraph", "TAIL=x\n\n", "LEAD=  two leading blanks", "HASH=a # b", "COLON=a: b", "PCT=50%s %d%% %[1]q")
 		case 1:
 			e.DeviceNodes = []*specs.DeviceNode{c19DevNode(10*variety + i)}
 		case 2:
@@ -86,9 +86,24 @@ func c19Spec(vendor, class string, devs []string, tag string, variety int, globa
 		s.Devices = append(s.Devices, specs.Device{Name: d, ContainerEdits: e})
 	}
 	if global {
-		s.ContainerEdits = specs.ContainerEdits{Env: []string{"SPEC=" + tag}}
-		if variety%2 == 1 {
-			s.ContainerEdits.Hooks = []*specs.Hook{c19Hook("spec-" + tag)}
+		// the Spec-level edits consist of one kind alone (the command decides by kinds whether it prints them), of two kinds, or
+		// of a kind the command does not count (additionalGids: nothing is printed for them)
+		switch variety % 7 {
+		case 0:
+			s.ContainerEdits = specs.ContainerEdits{Env: []string{"SPEC=" + tag}}
+		case 1:
+			s.ContainerEdits = specs.ContainerEdits{Env: []string{"SPEC=" + tag}, Hooks: []*specs.Hook{c19Hook("spec-" + tag)}}
+		case 2:
+			s.ContainerEdits = specs.ContainerEdits{Hooks: []*specs.Hook{c19Hook("spec-" + tag)}}
+		case 3:
+			s.ContainerEdits = specs.ContainerEdits{Mounts: []*specs.Mount{{HostPath: "/tmp/c19-spec-" + tag, ContainerPath: "/mnt/spec", Options: []string{"ro"}}}}
+		case 4:
+			s.ContainerEdits = specs.ContainerEdits{DeviceNodes: []*specs.DeviceNode{c19DevNode(200 + variety)}}
+		case 5:
+			s.ContainerEdits = specs.ContainerEdits{Env: []string{"SPEC=" + tag, "PCT=100%d of %s, %v%%", "%!d(MISSING)=%"}}
+		default:
+			s.Version = "0.7.0"
+			s.ContainerEdits = specs.ContainerEdits{AdditionalGIDs: []uint32{4, 5}}
 		}
 	}
 	return s
@@ -111,7 +126,7 @@ var c19NonSpec = []struct{ name, raw string }{
 
 func c19RandScenario(r *hx.R, wantErrors bool) c19Scenario {
 	var sc c19Scenario
-	names := []string{"zz", "aa", "mm", "d0", "cdi.d", "Bb"}
+	names := []string{"zz", "aa", "mm", "d0", "cdi.d", "Bb", "sp ace", "p%sct%d"}
 	r.Shuffle(len(names), func(i, j int) { names[i], names[j] = names[j], names[i] })
 	nd := 1 + r.Intn(3)
 	vendors := []string{"v1.com", "v2.org"}
@@ -687,6 +702,7 @@ func (c *c19Ctx) allListings(r *hx.R, few bool) error {
 	if len(sel) == 0 {
 		sel = []string{pool[len(pool)-1]}
 	}
+	r.Shuffle(len(sel), func(i, j int) { sel[i], sel[j] = sel[j], sel[i] })
 	selected := map[string]bool{}
 	for _, a := range sel {
 		selected[a] = true
@@ -696,8 +712,10 @@ func (c *c19Ctx) allListings(r *hx.R, few bool) error {
 	for _, vend := range v.Vendors {
 		if !selected[vend] {
 			filterMatters = true
-			continue
 		}
+	}
+	// the Specs of the requested vendors, in the order of the request
+	for _, vend := range sel {
 		for _, s := range v.Specs[vend] {
 			selBodies = append(selBodies, c19Canon(s.Spec))
 		}
@@ -730,7 +748,10 @@ func (c *c19Ctx) allListings(r *hx.R, few bool) error {
 func c19OCI(r *hx.R, withCDI []string) *oci.Spec {
 	s := &oci.Spec{Version: "1.0.2", Process: &oci.Process{Args: []string{"sh"}, Cwd: "/", Env: []string{"PATH=/bin"}}, Root: &oci.Root{Path: "rootfs"}}
 	if r.Chance(0.3) {
-		s.Process.Env = append(s.Process.Env, "FROM=container")
+		s.Process.Env = append(s.Process.Env, "FROM=container", "PCT=%d%%")
+	}
+	if r.Chance(0.12) {
+		s.Process = nil
 	}
 	if r.Chance(0.3) {
 		s.Mounts = []oci.Mount{{Destination: "/proc", Type: "proc", Source: "proc"}}
@@ -892,6 +913,7 @@ func (c *c19Ctx) patterns(r *hx.R) []string {
 	}
 	if r.Chance(0.08) {
 		ps = append(ps, "v1.com/gpu=[d")
+		r.Shuffle(len(ps), func(i, j int) { ps[i], ps[j] = ps[j], ps[i] })
 	}
 	return ps
 }
@@ -979,6 +1001,9 @@ func (c *c19Ctx) resolve(r *hx.R, idx int, req []string) error {
 
 // ---------------------------------------------------------------------------------------------- one scenario
 
+// aspect lists for `cdi monitor`, one per scenario without cache errors, in the order the scenarios come
+var c19WantMonitor [][]string
+
 func c19ScenarioDesc(sc c19Scenario) interface{} {
 	var order []string
 	for k, i := range sc.Order {
@@ -1027,6 +1052,11 @@ func c19RunScenario(s *hx.Suite, r *hx.R, scratch string, idx int, sc c19Scenari
 	defer view.close()
 	c.view = view
 	hasErr := len(view.Errors) > 0
+	if !hasErr && len(c19WantMonitor) > 0 {
+		// `cdi monitor` on this scenario, in the background (the directories are not touched any more)
+		c.startMonitor(c19WantMonitor[0])
+		c19WantMonitor = c19WantMonitor[1:]
+	}
 	if err := c.allListings(r, hasErr); err != nil {
 		return err
 	}
@@ -1075,6 +1105,11 @@ func c19RunScenario(s *hx.Suite, r *hx.R, scratch string, idx int, sc c19Scenari
 	}
 	for k, req := range resolves {
 		if err := c.resolve(r, k, req); err != nil {
+			return err
+		}
+	}
+	if !hasErr && (idx < 3 || r.Chance(0.12)) {
+		if err := c.resolveMany(r, idx); err != nil {
 			return err
 		}
 	}
@@ -1186,6 +1221,21 @@ func c19Validate(s *hx.Suite, r *hx.R, scratch string, idx int, valBin string) e
 			results = append(results, hx.P(hx.S(p), hx.B(ok)))
 			dd = append(dd, docDesc{strings.TrimPrefix(p, root+"/"), ok})
 		}
+		if r.Chance(0.2) {
+			// the standard input named among the files ("-" or the empty argument), at any position
+			d := hx.Pick(r, c19Docs)
+			stdin = []byte(d.raw)
+			ok := false
+			if lerr == nil {
+				var verr error
+				hx.Guard(func() { verr = scm.ValidateData(stdin) })
+				ok = verr == nil
+			}
+			at := r.Intn(len(docs) + 1)
+			docs = append(docs[:at], append([]string{hx.Pick(r, []string{"-", ""})}, docs[at:]...)...)
+			results = append(results[:at], append([]string{hx.P(hx.S("<stdin>"), hx.B(ok))}, results[at:]...)...)
+			dd = append(dd[:at], append([]docDesc{{"<stdin> = " + d.name, ok}}, dd[at:]...)...)
+		}
 	}
 	cmdline := append(args, docs...)
 	run, err := c19Exec(valBin, root, stdin, cmdline...)
@@ -1258,6 +1308,20 @@ func c19Fixed() []struct {
 				{Name: "gone", State: "missing"}},
 			Order: []int{0, 1, 0}, Spelling: []string{"D", "D", "D/"}},
 			nil, nil},
+		// directory-level errors only (no Spec file is in error): a missing directory first / last, a path below a regular file
+		{c19Scenario{Tag: "missing directory first, no file in error", Schema: "builtin",
+			Dirs: []c19Dir{
+				{Name: "gone", State: "missing"},
+				{Name: "aa", State: "dir", Files: []c19File{{Name: "x.json", Kind: "valid", Spec: spec("v1.com", "gpu", []string{"d0"}, "x", 4, true)}}}},
+			Order: []int{0, 1}, Spelling: []string{"D", "D"}},
+			[][]string{{"v1.com/gpu=d0"}}, nil},
+		{c19Scenario{Tag: "missing directory last and a path below a file, no file in error", Schema: "",
+			Dirs: []c19Dir{
+				{Name: "mm", State: "dir", Files: []c19File{{Name: "x.yaml", Kind: "valid", Spec: spec("v2.org", "net", []string{"d0", "d1"}, "x", 5, true)}}},
+				{Name: "uf", State: "under-file"},
+				{Name: "gone", State: "missing"}},
+			Order: []int{0, 1, 2}, Spelling: []string{"D", "D", "D/"}},
+			[][]string{{"*"}}, nil},
 		// a device whose injection fails in the library (device node that cannot be inspected)
 		{c19Scenario{Tag: "injection failure", Schema: "",
 			Dirs: []c19Dir{{Name: "aa", State: "dir", Files: []c19File{{Name: "x.json", Kind: "valid",
@@ -1298,7 +1362,11 @@ func genC19(r *hx.R, tier string, scratch string) (*hx.Suite, error) {
 			"sub-directories; missing directories, a file in place of a directory) with --spec-dirs / -d and --schema builtin|none|<file>|<missing file>: " +
 			"devices, vendors, classes, specs [vendors], dirs, validate, devices -v and specs -v in every output format, inject (file or stdin, glob patterns incl. " +
 			"overlapping and malformed ones, every output format), resolve; cmd/validate on valid / schema-invalid / unparsable / absent documents (files, stdin) " +
-			"under every schema choice. The library answers the same questions in the harness process. Non-trivial: the library has devices or errors " +
+			"under every schema choice, the standard input also named among the files. Directory names with a blank and with format verbs, '%' in the printed strings, " +
+			"Spec-level edits of one single kind each (env / hooks / mounts / device nodes / additionalGids), vendor arguments in any order, a malformed pattern at any position, " +
+			"OCI Specs without a process; directory-level errors alone (missing directory first / last, a path below a file). Without --spec-dirs: the default directories, absent, " +
+			"and - in a private mount namespace of a child process - populated (a device defined in both, an invalid file, a conflict; schema builtin and from a file). " +
+			"The library answers the same questions in the harness process. Non-trivial: the library has devices or errors " +
 			"(listings), selects a device (inject), the OCI Spec names CDI devices (resolve), a document fails or the schema does not load (validate).",
 		Extra: map[string]interface{}{},
 	}
@@ -1320,6 +1388,7 @@ func genC19(r *hx.R, tier string, scratch string) (*hx.Suite, error) {
 		defView = dv
 		defer dv.close()
 	}
+	c19WantMonitor = [][]string{{"devices"}, nil, {"classes", "vendors"}, {hx.Pick(r, []string{"specs", "vendors", "all"})}, {"specs", "devices"}}
 	idx := 0
 	for _, f := range c19Fixed() {
 		if err := c19RunScenario(s, r, scratch, idx, f.sc, defView, cdiBin, valBin, known, f.injects, f.resolves); err != nil {
@@ -1327,7 +1396,7 @@ func genC19(r *hx.R, tier string, scratch string) (*hx.Suite, error) {
 		}
 		idx++
 	}
-	n, nv := 66, 140
+	n, nv := 62, 130
 	if tier == "thorough" {
 		n, nv = 500, 800
 	}
@@ -1352,10 +1421,21 @@ func genC19(r *hx.R, tier string, scratch string) (*hx.Suite, error) {
 			}
 		}
 	}
+	// without --spec-dirs, on default directories WITH content (valid, invalid, conflicting files): in a private mount namespace
+	if defaultsAbsent {
+		note, err := c19Defaults(s, r, scratch, cdiBin)
+		if err != nil {
+			return nil, err
+		}
+		s.Extra["x_populated_default_dirs"] = note
+	}
 	for i := 0; i < nv; i++ {
 		if err := c19Validate(s, r, scratch, i, valBin); err != nil {
 			return nil, err
 		}
+	}
+	if err := c19CollectMonitors(s); err != nil {
+		return nil, err
 	}
 	s.Extra["x_known_finding_inputs"] = known
 	s.Extra["x_default_dirs_absent"] = defaultsAbsent
